@@ -65,7 +65,8 @@ type iv struct{ lo, hi uint64 }
 type Term struct {
 	Op   Op
 	W    uint8
-	hard bool // contains mul/div/rem by non-constant-power-of-two
+	hard bool // contains div/rem by other than a power of two, symbolic*symbolic, or a deep chain of constant multiplications
+	md   uint8 // depth of nested multiplications by constants (not powers of two)
 	fp   bool // contains floating point operators
 	C    uint64
 	Name string
@@ -158,12 +159,29 @@ func (f *TermFactory) mk(op Op, w int, c uint64, name string, a, b, d *Term) *Te
 		if x != nil {
 			t.hard = t.hard || x.hard
 			t.fp = t.fp || x.fp
+			if x.md > t.md {
+				t.md = x.md
+			}
 		}
 	}
 	switch op {
-	case OMul, OUDiv, OSDiv, OURem, OSRem:
-		// multiplication/division by a constant power of two is cheap for bit-blasting
-		if !(b != nil && b.IsConst() && bits.OnesCount64(b.C) <= 1) && !(a != nil && a.IsConst() && bits.OnesCount64(a.C) <= 1) {
+	case OMul:
+		pow2 := (b != nil && b.IsConst() && bits.OnesCount64(b.C) <= 1) || (a != nil && a.IsConst() && bits.OnesCount64(a.C) <= 1)
+		switch {
+		case pow2:
+		case a.IsConst() || b.IsConst():
+			// multiplication by a constant bit-blasts into a few adders; only long
+			// chains (decimal conversion of many digits) defeat bit-blasting
+			t.md++
+			if t.md > 6 {
+				t.hard = true
+			}
+		default:
+			t.hard = true
+		}
+	case OUDiv, OSDiv, OURem, OSRem:
+		// division by a constant power of two is cheap for bit-blasting
+		if !(b != nil && b.IsConst() && bits.OnesCount64(b.C) <= 1) {
 			t.hard = true
 		}
 	case OFEq, OFLt, OFLe, OFCvt, OFToSI, OFToUI, OSIToF, OUIToF:
